@@ -4,10 +4,15 @@
 package main
 
 import (
+	"encoding/binary"
 	"encoding/json"
 	"fmt"
+	"net"
 	"sync/atomic"
 
+	"github.com/EdgeCast/vflow/ipfix"
+	netflow5 "github.com/EdgeCast/vflow/netflow/v5"
+	netflow9 "github.com/EdgeCast/vflow/netflow/v9"
 	"github.com/EdgeCast/vflow/reader"
 
 	"verif/harness/mon"
@@ -43,6 +48,8 @@ type rcase struct {
 	Slack  int  `json:"slack"` // octets of backing array beyond the buffer (canary 0xEE)
 	Fill   int  `json:"fill"`  // 0: b[i]=i*37+11 ; otherwise seed for random fill
 	Ops    []op `json:"ops"`
+	// replay: run the three decoders (argument AfterDecoders-1) on the goroutine before the reader is made
+	AfterDecoders int `json:"after_decoders,omitempty"`
 }
 
 func makeBuf(c rcase) []byte {
@@ -166,6 +173,39 @@ func step(r *reader.Reader, buf []byte, pos *int, o op, spurious *int64) (msg st
 	return ""
 }
 
+// decodersRun lets the collector's three reader-based decoders work through complete datagrams on the calling
+// goroutine: a reader handed out afterwards is what a collector process really gets - one that exists in a
+// process where readers have been created, used up and dropped before.
+var (
+	ipfixCache = ipfix.GetCache("")
+	nf9Cache   = netflow9.GetCache("")
+)
+
+func decodersRun(k int) {
+	defer func() { recover() }()
+	ip := net.IPv4(127, 0, 0, byte(k))
+	// IPFIX: header, template 256 {octetDeltaCount/4, protocolIdentifier/1}, data set of k%7+1 records
+	nrec := k%7 + 1
+	m := []byte{0, 10, 0, 0, 0, 0, 0, 1, 0, 0, 0, 2, 0, 0, 0, 3}
+	m = append(m, 0, 2, 0, 16, 1, 0, 0, 2, 0, 1, 0, 4, 0, 4, 0, 1)
+	m = append(m, 1, 0, 0, byte(4+5*nrec))
+	for i := 0; i < nrec; i++ {
+		m = append(m, 0, 0, 1, byte(i), 6)
+	}
+	binary.BigEndian.PutUint16(m[2:], uint16(len(m)))
+	ipfix.NewDecoder(ip, m).Decode(ipfixCache)
+	// NetFlow v9: header, template flowset, data flowset
+	n := []byte{0, 9, 0, 2, 0, 0, 0, 1, 0, 0, 0, 2, 0, 0, 0, 3, 0, 0, 0, 4}
+	n = append(n, 0, 0, 0, 16, 1, 0, 0, 2, 0, 1, 0, 4, 0, 4, 0, 1)
+	n = append(n, 1, 0, 0, 12, 0, 0, 1, 1, 6, 0, 0, 0)
+	netflow9.NewDecoder(ip, n).Decode(nf9Cache)
+	// NetFlow v5: header with count = k%3+1 and that many 48-octet flows
+	cnt := k%3 + 1
+	f := make([]byte, 24+48*cnt)
+	f[1], f[3] = 5, byte(cnt)
+	netflow5.NewDecoder(ip, f).Decode()
+}
+
 func runCase(c rcase, spurious *int64) (string, int) {
 	buf := makeBuf(c)
 	r := reader.NewReader(buf)
@@ -208,6 +248,9 @@ func main() {
 		}
 		var c rcase
 		json.Unmarshal(d.Case, &c)
+		if c.AfterDecoders > 0 {
+			decodersRun(c.AfterDecoders - 1)
+		}
 		m, at := runCase(c, &spurious)
 		run.Eval(1)
 		run.DistinctBulk(2)
@@ -287,7 +330,7 @@ func main() {
 	// random long sequences on large buffers (sub-slices of a larger backing array, so that a read
 	// past the end would succeed silently instead of panicking and has to be caught by the oracle)
 	nRand := run.Pick(100000, 5000000)
-	var rops int64
+	var rops, afterDec int64
 	mon.ParallelFor(nRand/1000, func(bi int) {
 		for k := 0; k < 1000; k++ {
 			idx := bi*1000 + k
@@ -331,10 +374,19 @@ func main() {
 					}
 				}
 			}
+			if idx%4 == 0 {
+				// a quarter of the sequences run on a reader obtained right after real decoders have finished
+				decodersRun(idx / 4)
+				atomic.AddInt64(&afterDec, 1)
+			}
 			m, at := runCase(c, &spurious)
 			atomic.AddInt64(&rops, int64(at))
 			if m != "" {
 				c.Ops = c.Ops[:at+1]
+				if idx%4 == 0 {
+					c.AfterDecoders = idx/4 + 1
+					m += " (the reader was obtained after the ipfix, netflow v9 and netflow v5 decoders had each decoded a datagram in this process)"
+				}
 				run.Violation("reader:"+sigOf(m, c.Ops[at]), m, c)
 			}
 			if idx < 3 {
@@ -346,6 +398,7 @@ func main() {
 	run.DistinctBulk(int64(nRand))
 	run.Add("random_sequences", int64(nRand))
 	run.Add("random_operations_executed", rops)
+	run.Add("sequences_on_a_reader_obtained_after_real_decoders_had_run", afterDec)
 	run.Add("failures_with_enough_octets_left(not_judged)", spurious)
 	run.Set("enumeration", map[string]interface{}{"depth": depth, "buffer_lengths": "0..12", "operation_variants_per_length": len(variants(12)),
 		"complete": true})
